@@ -38,9 +38,10 @@ def resolve_target(I, target):
         raise Undecided(f"target {target} not found in the current tree")
     for p in parts[1:]:
         if isinstance(v, ClassVal):
-            if p not in v.members:
+            c, m = I.class_lookup(v, p)
+            if c is None:
                 raise Undecided(f"target {target} not found in the current tree")
-            v = v.members[p]
+            v = m
         else:
             raise Undecided(f"target {target} not found")
     if not isinstance(v, FuncVal):
@@ -80,6 +81,7 @@ def run_job(target, case, opts=None):
         try:
             fv = resolve_target(I, target)
             fv0 = fv
+            I.root_fv = fv
             B = Builder(I)
             args = ctr.inputs(B, case) if ctr.inputs else {}
             A = NS(args)
@@ -101,17 +103,18 @@ def run_job(target, case, opts=None):
             if kind == "return":
                 out["normal_paths"] += 1
                 for (ename, cond) in ctr.raises:
-                    ctx.prove(f"raises-complete:{ename}", "raises", Not(cond(A)), info={"path": pid})
+                    ctx.prove(f"raises-complete:{ename}", "raises", Not(cond(A)), info={"path": pid}, assume_after=False)
                 if ctr.yields_item is not None:
-                    ctx.prove("yield-count", "yield-count", spec.Eq(ctx.ycount, ctr.yields_count(A)), info={"path": pid})
+                    ctx.prove("yield-count", "yield-count", spec.Eq(ctx.ycount, ctr.yields_count(A)), info={"path": pid}, assume_after=False)
                 if ctr.returns is not None:
                     want = ctr.returns(A)
-                    ctx.prove("post:returns", "post", equiv(val, want), info={"got": repr(val), "want": repr(want), "path": pid})
-                for (nm, fn) in ctr.ensures:
-                    ctx.prove(f"post:{nm}", "post", fn(A, val), info={"path": pid})
+                    ctx.prove("post:returns", "post", equiv(val, want), info={"got": repr(val), "want": repr(want), "path": pid}, assume_after=False)
+                for ens in ctr.ensures:
+                    nm, fn = ens[0], ens[1]
+                    ctx.prove(f"post:{nm}", "post", fn(A, val), info={"path": pid}, assume_after=False)
                 if ctr.frame is not None:
                     ok = not ctx.mutated
-                    ctx.prove("frame", "frame", ok, info={"path": pid, "written": repr(ctx.mutated[:3])})
+                    ctx.prove("frame", "frame", ok, info={"path": pid, "written": repr(ctx.mutated[:3])}, assume_after=False)
                 if not canary_done and opts.get("canary", True):
                     canary_done = True
                     ctx.prove("canary(must fail)", "vacuity", False, assume_after=False, info={"path": pid})
@@ -191,10 +194,25 @@ def discharge(out, opts):
     second = opts.get("second_opinion", False)
     for ob in out["obligations"]:
         try:
-            st, be, secs, model, reason = check(ob.hyps, ob.goal, getattr(ob, "inputs", {}), timeout_ms=timeout,
-                                                second_opinion=second)
+            if ob.kind == "vacuity":
+                # must NOT be provable; `unknown` is accepted (no model for quantified hypotheses)
+                st, be, secs, model, reason = check(ob.hyps, ob.goal, {}, timeout_ms=2000, use_cvc5=False)
+            else:
+                st, be, secs, model, reason = check(ob.hyps, ob.goal, getattr(ob, "inputs", {}), timeout_ms=timeout,
+                                                    second_opinion=second)
         except z3.Z3Exception as e:
             st, be, secs, model, reason = "unknown", "z3-error", 0.0, None, str(e)
+        if st == "unknown" and ob.kind != "vacuity":
+            from .solve import candidate
+            for bound in (3, 5):
+                try:
+                    cm = candidate(ob.hyps, ob.goal, getattr(ob, "inputs", {}), bound=bound)
+                except Exception:
+                    cm = None
+                if cm is not None:
+                    st, model = "candidate", cm
+                    reason = (reason or "") + f" | candidate counterexample from bounded quantifier instantiation (bound {bound})"
+                    break
         ob.status, ob.backend, ob.seconds, ob.model, ob.reason = st, be, secs, model, reason
 
 
